@@ -206,8 +206,9 @@ func (ii *InstInfo) eqDef(n eqNode, a, b string) string {
 		if el.gt == nil {
 			return ""
 		}
-		return fmt.Sprintf("(len(%s) == len(%s) && forall(i, 0, len(%s), exists(j, 0, len(%s), %s)) && forall(j, 0, len(%s), exists(i, 0, len(%s), %s)))",
-			a, b, a, b, ii.soi(el, a+"[i]", b+"[j]"), b, a, ii.soi(el, a+"[i]", b+"[j]"))
+		// unhashable elements (Go slice): same length and every item of a has an
+		// equal item in b; on duplicate-free sets this is mutual inclusion
+		return fmt.Sprintf("(len(%s) == len(%s) && forall(i, 0, len(%s), exists(j, 0, len(%s), %s)))", a, b, a, b, ii.soi(el, a+"[i]", b+"[j]"))
 	case "map":
 		if mt, ok := n.gt.Underlying().(*types.Map); ok {
 			vn := eqNode{d: n.d.Val, gt: mt.Elem()}
@@ -218,9 +219,11 @@ func (ii *InstInfo) eqDef(n eqNode, a, b string) string {
 			return ""
 		}
 		kn, vn := eqNode{d: n.d.Key, gt: kt}, eqNode{d: n.d.Val, gt: vt}
-		item := ii.soi(kn, a+"[i].Key", b+"[j].Key") + " && " + ii.soi(vn, a+"[i].Value", b+"[j].Value")
-		return fmt.Sprintf("(len(%s) == len(%s) && forall(i, 0, len(%s), exists(j, 0, len(%s), %s)) && forall(j, 0, len(%s), exists(i, 0, len(%s), %s)))",
-			a, b, a, b, item, b, a, item)
+		// unhashable keys (Go slice of pairs): same length and, for every entry of
+		// a, the first entry of b with an equal key has an equal value; on
+		// duplicate-free keys this is entry-wise equality
+		return fmt.Sprintf("(len(%s) == len(%s) && forall(i, 0, len(%s), exists(j, 0, len(%s), %s && forall(j2, 0, j, !%s) && %s)))",
+			a, b, a, b, ii.soi(kn, a+"[i].Key", b+"[j].Key"), ii.soi(kn, a+"[i].Key", b+"[j2].Key"), ii.soi(vn, a+"[i].Value", b+"[j].Value"))
 	}
 	return ""
 }
@@ -260,7 +263,7 @@ func (ii *InstInfo) eqChildren(n eqNode) []eqNode {
 
 func isCorpusFn(f *ssa.Function) bool {
 	pk := fnPkg(f)
-	return pk != nil && strings.HasPrefix(pk.Path(), "example.com/corpus/") && len(f.Blocks) > 0
+	return pk != nil && strings.HasPrefix(pk.Path(), "example.com/corpus/") && len(f.Blocks) > 0 && f.Synthetic == ""
 }
 
 // isEqHelper: package-level func(T, T) bool.
@@ -333,8 +336,12 @@ func (ii *InstInfo) addEqualsContracts(p *Program, cs *ContractSet, prop string)
 	}
 	// helpers: discovered from the calls of functions whose node is known
 	ambiguous := map[*ssa.Function]string{}
-	scan := func(f *ssa.Function, n eqNode) {
+	scan := func(f *ssa.Function, n eqNode, self bool) {
 		kids := ii.eqChildren(n)
+		if self {
+			// a typedef method delegates the whole value to the helper of its target type
+			kids = []eqNode{n}
+		}
 		for _, b := range f.Blocks {
 			for _, in := range b.Instrs {
 				c, ok := in.(ssa.CallInstruction)
@@ -374,12 +381,12 @@ func (ii *InstInfo) addEqualsContracts(p *Program, cs *ContractSet, prop string)
 		}
 	}
 	for f, n := range typedefFn {
-		scan(f, eqNode{d: n.d, gt: n.gt.Underlying()})
+		scan(f, eqNode{d: n.d, gt: n.gt.Underlying()}, true)
 	}
 	for len(queue) > 0 {
 		f := queue[0]
 		queue = queue[1:]
-		scan(f, assigned[f])
+		scan(f, assigned[f], false)
 	}
 	for g, why := range ambiguous {
 		if _, ok := assigned[g]; !ok {
@@ -408,11 +415,30 @@ func (ii *InstInfo) addEqualsContracts(p *Program, cs *ContractSet, prop string)
 	}
 	sort.Slice(fns, func(i, j int) bool { return fns[i].String() < fns[j].String() })
 	built := map[*ssa.Function]*Contract{}
+	// definitional axioms of every relation that has an emitted function
+	for f, n := range assigned {
+		if n.opt || isPrimK(n.d.K) {
+			continue
+		}
+		if kt, _ := pairTypes(n.gt); n.d.K == "map" && kt != nil {
+			continue
+		}
+		def := ii.eqDef(n, "a", "b")
+		if def == "" {
+			continue
+		}
+		id := ii.eqID(n)
+		if _, ok := cs.Macros["def_"+id]; !ok {
+			cs.Macros["def_"+id] = &Macro{Kind: "axiom", Params: []string{"a", "b"}, Body: fmt.Sprintf("eqsym(%s, a, b) <==> %s", id, def)}
+		}
+		_ = f
+	}
 	for _, f := range fns {
 		a, b := f.Params[0].Name(), f.Params[1].Name()
 		ct := newContract(f, prop)
 		ct.Pure = true
 		ct.NoPanic = true
+		ct.RegionMerge = true
 		switch {
 		case enumFn[f]:
 			ct.Ensures = append(ct.Ensures, cl("ensures", "def", fmt.Sprintf("result == (%s == %s)", a, b)))
@@ -429,6 +455,33 @@ func (ii *InstInfo) addEqualsContracts(p *Program, cs *ContractSet, prop string)
 			ct.Ensures = append(ct.Ensures, cl("ensures", "def", "result == "+ii.soi(inner, a, b)))
 		default:
 			n := assigned[f]
+			if kt, vt := pairTypes(n.gt); n.d.K == "map" && kt != nil && !n.opt {
+				// unhashable keys: the exact relation has a forall-exists-forall shape
+				// the solvers do not decide in time; two bounds are proved, the
+				// identification with the relation symbol is an assumed clause
+				kn, vn := eqNode{d: n.d.Key, gt: kt}, eqNode{d: n.d.Val, gt: vt}
+				keq := ii.soi(kn, a+"[i].Key", b+"[j].Key")
+				veq := ii.soi(vn, a+"[i].Value", b+"[j].Value")
+				ct.Ensures = append(ct.Ensures,
+					cl("ensures", "sound", fmt.Sprintf("result ==> (len(%s) == len(%s) && forall(i, 0, len(%s), exists(j, 0, len(%s), %s && %s)))", a, b, a, b, keq, veq)),
+					cl("ensures", "complete", fmt.Sprintf("(len(%s) == len(%s) && forall(i, 0, len(%s), exists(j, 0, len(%s), %s)) && forall(i, 0, len(%s), forall(j, 0, len(%s), %s ==> %s))) ==> result", a, b, a, b, keq, a, b, keq, veq)))
+				sym := cl("ensures", "sym", fmt.Sprintf("result == eqsym(%s, %s, %s)", ii.eqID(n), a, b))
+				sym.Assumed = true
+				ct.Ensures = append(ct.Ensures, sym)
+				if len(findLoops(f)) == 2 {
+					ct.LoopInv[1] = []*Clause{
+						cl("invariant", "len", fmt.Sprintf("len(%s) == len(%s) && ridx1 >= -1 && ridx1 < len(%s)", a, b, a)),
+						cl("invariant", "found", fmt.Sprintf("forall(i, 0, ridx1 + 1, exists(j, 0, len(%s), %s && %s))", b, keq, veq)),
+					}
+					ct.LoopInv[2] = []*Clause{
+						cl("invariant", "idx", fmt.Sprintf("0 <= ridx1 && ridx1 < len(%s) && ridx2 >= -1 && ridx2 < len(%s)", a, b)),
+						cl("invariant", "nomatch", fmt.Sprintf("forall(j, 0, ridx2 + 1, !%s)", ii.soi(kn, a+"[ridx1].Key", b+"[j].Key"))),
+					}
+				}
+				built[f] = ct
+				have[f] = true
+				continue
+			}
 			def := ii.eqDef(n, a, b)
 			if def == "" {
 				ii.skipped = append(ii.skipped, fmt.Sprintf("%s: no structural definition for %s", shortFn(f.String()), ii.nodeKey(n)))
@@ -443,6 +496,22 @@ func (ii *InstInfo) addEqualsContracts(p *Program, cs *ContractSet, prop string)
 				}
 				ct.Uses = append(ct.Uses, cl("use", "", fmt.Sprintf("%s(%s, %s)", mn, a, b)))
 				ct.Ensures = append(ct.Ensures, cl("ensures", "sym", fmt.Sprintf("result == eqsym(%s, %s, %s)", id, a, b)))
+			}
+			if n.d.K == "struct" {
+				// struct-typed fields: the template may compare them through its own
+				// nil wrapper, so the child's definition is unfolded once at the field
+				if fields, stt, ok := ii.structInfo(n.gt); ok {
+					for i, fl := range fields {
+						cn := fieldNode(fl, stt.Field(i).Type())
+						if cn.opt || cn.d.K != "struct" {
+							continue
+						}
+						cm := "def_" + ii.eqID(cn)
+						if _, ok := cs.Macros[cm]; ok {
+							ct.Uses = append(ct.Uses, cl("use", "", fmt.Sprintf("%s(%s.%s, %s.%s)", cm, a, stt.Field(i).Name(), b, stt.Field(i).Name())))
+						}
+					}
+				}
 			}
 			ii.eqLoops(f, n, ct, a, b)
 		}
@@ -506,10 +575,21 @@ func (ii *InstInfo) eqLoops(f *ssa.Function, n eqNode, ct *Contract, a, b string
 			cl("invariant", "prefix", fmt.Sprintf("forall(j, 0, ridx + 1, %s)", ii.soi(el, a+"[j]", b+"[j]"))),
 		}
 	case "set":
+		if eqShape(n.gt) == "s" && len(loops) == 2 {
+			el := eqNode{d: n.d.Elem, gt: elemType(n.gt)}
+			ct.LoopInv[1] = []*Clause{
+				cl("invariant", "len", fmt.Sprintf("len(%s) == len(%s) && ridx1 >= -1 && ridx1 < len(%s)", a, b, a)),
+				cl("invariant", "found", fmt.Sprintf("forall(i, 0, ridx1 + 1, exists(j, 0, len(%s), %s))", b, ii.soi(el, a+"[i]", b+"[j]"))),
+			}
+			ct.LoopInv[2] = []*Clause{
+				cl("invariant", "idx", fmt.Sprintf("0 <= ridx1 && ridx1 < len(%s) && ridx2 >= -1 && ridx2 < len(%s)", a, b)),
+				cl("invariant", "nomatch", fmt.Sprintf("forall(j, 0, ridx2 + 1, !%s)", ii.soi(el, a+"[ridx1]", b+"[j]"))),
+			}
+		}
 		if eqShape(n.gt) == "m" {
 			ct.LoopInv[1] = []*Clause{
 				cl("invariant", "len", fmt.Sprintf("len(%s) == len(%s)", a, b)),
-				cl("invariant", "sub", fmt.Sprintf("forallkey(k, %s, visited(k) ==> has(%s, k))", a, a)),
+				cl("invariant", "sub", fmt.Sprintf("forallkey(k, %s, visited(k) ==> (has(%s, k) && has(%s, k)))", a, a, b)),
 			}
 			ct.PostUses = append(ct.PostUses, cl("postuse", "", fmt.Sprintf("card_ext(%s, %s)", a, b)), cl("postuse", "", fmt.Sprintf("card_subset(%s, %s)", a, b)), cl("postuse", "", fmt.Sprintf("card_subset(%s, %s)", b, a)))
 		}
@@ -518,7 +598,7 @@ func (ii *InstInfo) eqLoops(f *ssa.Function, n eqNode, ct *Contract, a, b string
 			vn := eqNode{d: n.d.Val, gt: mt.Elem()}
 			ct.LoopInv[1] = []*Clause{
 				cl("invariant", "len", fmt.Sprintf("len(%s) == len(%s)", a, b)),
-				cl("invariant", "sub", fmt.Sprintf("forallkey(k, %s, visited(k) ==> (has(%s, k) && %s))", a, b, ii.soi(vn, a+"[k]", b+"[k]"))),
+				cl("invariant", "sub", fmt.Sprintf("forallkey(k, %s, visited(k) ==> (has(%s, k) && has(%s, k) && %s))", a, a, b, ii.soi(vn, a+"[k]", b+"[k]"))),
 			}
 			ct.PostUses = append(ct.PostUses, cl("postuse", "", fmt.Sprintf("card_ext(%s, %s)", a, b)), cl("postuse", "", fmt.Sprintf("card_subset(%s, %s)", a, b)), cl("postuse", "", fmt.Sprintf("card_subset(%s, %s)", b, a)))
 		}
